@@ -354,9 +354,9 @@ class FmtStr:
     def copy_with_new_str(self, new_str: str) -> "FmtStr":
         """Copies the current FmtStr's attributes while changing its string."""
         # What to do when there are multiple Chunks with conflicting atts?
-        old_atts = {
-            att: value for bfs in self.chunks for (att, value) in bfs.atts.items()
-        }
+        # a chunk without characters formats nothing, unless there is nothing else
+        chunks = [bfs for bfs in self.chunks if bfs.s] or self.chunks
+        old_atts = {att: value for bfs in chunks for (att, value) in bfs.atts.items()}
         return FmtStr(Chunk(new_str, old_atts))
 
     def setitem(self, startindex: int, fs: Union[str, "FmtStr"]) -> "FmtStr":
